@@ -670,6 +670,23 @@ def discharge(res, timeout_ms=10000, want_models=True, second_opinion=False):
                 rec['backend'] = 'cvc5-1.0.3 (z3: %s)' % rec['reason']
                 rec.pop('smt2', None)
         if verdict == 'undecided':
+            # a verdict must not flip with the load of the machine (solver budgets are wall-clock): one more attempt with
+            # four times the budget before the obligation is reported undecided
+            s3, r3 = _solve1(ob.pc, ob.goal, 4 * tmo, axioms, 2)
+            if r3 == z3.unsat:
+                verdict = rec['verdict'] = 'proved'
+                rec['backend'] = 'z3-%s (second attempt, budget x4)' % z3.get_version_string()
+                rec.pop('smt2', None)
+            elif r3 == z3.sat:
+                s, verdict = s3, 'refuted'
+                rec['verdict'] = 'refuted'
+                rec.pop('smt2', None)
+                try:
+                    rec['model'] = model_dict(s.model())
+                    rec['model']['__synth__'] = layout_instances(s.model(), list(ob.pc) + [ob.goal])
+                except Exception as e:
+                    rec['model'] = {'error': str(e)}
+        if verdict == 'undecided':
             try:
                 m = s.model()
                 rec['candidate_model'] = model_dict(m)
